@@ -552,6 +552,20 @@ Fixpoint derive_queue (st : state) (q : list (scope * nat * N * N)) : res unit :
     end
   end.
 
+(** Unlock first makes sure that the accounts of the addresses waiting in
+    deriveOnUnlock are in the account cache (InvalidateAccountCache, which the
+    model does not have, could have dropped them) *)
+Fixpoint reload_queue_accts (st : state) (q : list (scope * nat * N * N)) : res unit :=
+  match q with
+  | [] => Ok st tt
+  | (s, oid, _, _) :: rest =>
+    match heap_get st oid, aget scope_eq_dec (m_scopes (st_mem st)) s with
+    | Some (MKey ma), Some sch =>
+      bind (load_acct st s sch (dp_iacct (ma_path ma))) (fun st _ => reload_queue_accts st rest)
+    | _, _ => reload_queue_accts st rest
+    end
+  end.
+
 (** Manager.Unlock *)
 Definition unlock (st : state) (pass : N) : state * option errc :=
   let m := st_mem st in
@@ -559,10 +573,14 @@ Definition unlock (st : state) (pass : N) : state * option errc :=
     if pass =? m_pass m then (st, None) else (lock_all st, Some EWrongPass)
   else if negb (pass =? m_pass m) then (lock_all st, Some EWrongPass)
   else
-    let st1 := upd_mem (fun m => set_m_accts (amap fill_priv (m_accts m)) m) st in
-    match derive_queue st1 (m_queue m) with
-    | Ok st2 _ => (upd_mem (set_m_locked false) st2, None)
-    | Err st2 e => (st2, Some e)
+    match reload_queue_accts st (m_queue m) with
+    | Err st0 e => (lock_all st0, Some e)
+    | Ok st0 _ =>
+      let st1 := upd_mem (fun m => set_m_accts (amap fill_priv (m_accts m)) m) st0 in
+      match derive_queue st1 (m_queue (st_mem st0)) with
+      | Ok st2 _ => (upd_mem (set_m_locked false) st2, None)
+      | Err st2 e => (st2, Some e)
+      end
     end.
 
 (* ------------------------------------------------------------- observations *)
